@@ -1,4 +1,5 @@
 import IceModel.Prio
+import IceModel.Crc32
 import IceSpec.C17
 import Driver.Util
 namespace Driver.Prio
@@ -41,9 +42,24 @@ def pairLine (args : List String) (impl : String) : Res :=
     | _, _, _ => bad "prio pair: args"
   | _ => bad "prio pair: arity"
 
+/-- `found <type> <tcp> <address>`: the implementation prints "<network type code> <foundation>"; the
+network type depends on the address family (decided by Go's netip parser), so it is taken from the
+implementation's output and only the foundation is recomputed. -/
+def foundLine (args : List String) (impl : String) : Res :=
+  match args with
+  | [ty, _tcp, addr] =>
+    match ty.toNat?, impl.splitOn " " with
+    | some ty, [net, _] =>
+      match net.toNat? with
+      | some net => { model := s!"{net} {IceModel.Crc32.foundation ty addr net}" }
+      | none => { model := "error" }
+    | _, _ => { model := "error" }
+  | _ => bad "prio found: arity"
+
 def line (toks : List String) (impl : String) : Res :=
   match toks with
   | "cand" :: rest => candLine rest impl
+  | "found" :: rest => foundLine rest impl
   | "pair" :: rest => pairLine rest impl
   | _ => bad "prio: unknown op"
 
